@@ -2,7 +2,8 @@
 C18 — cost twin of `loop`: the number of input bytes the scanner visits (loop iterations
 plus the bytes `strings.Index` walks over to find closing braces). Copying is not counted:
 the write cursor only moves forward, so copies cover disjoint input ranges (≤ len in total),
-and values are written once each (`Spec.render`).  Same branching as `Model.loop`.
+and values are written once each (`Spec.render`).  Same branching as `Model.loop`
+(`CostLemmas.loopC_fst/_snd`).
 -/
 import CaddyModel.C18.Model
 
@@ -24,35 +25,74 @@ def closeCost (inp : Bytes) (i : Nat) : Nat :=
   | none => inp.length - i
   | some e => (e - i + 1) + skipCost inp inp.length e
 
-def costLoop (inp : Bytes) (env : Env) (m : Mode) : (fuel i uc : Nat) → Nat
-  | 0, _, _ => 0
-  | fuel + 1, i, uc =>
+/-- bytes walked to find the closing brace for the opener at `i`: nothing when the remembered
+    brace `ce` (`lastEnd`) is reused, the whole search otherwise. Same test as `Model.closeAt`. -/
+def searchCost (inp : Bytes) (i ce : Nat) : Nat :=
+  if ce > i then 0 else closeCost inp i
+
+def costLoop (inp : Bytes) (env : Env) (m : Mode) : (fuel i uc ce : Nat) → Nat
+  | 0, _, _, _ => 0
+  | fuel + 1, i, uc, ce =>
   if i < inp.length then
-    if escAt inp i then 1 + costLoop inp env m fuel (i + 1) uc
-    else if !openAt inp i then 1 + costLoop inp env m fuel (i + 1) uc
+    if escAt inp i then 1 + costLoop inp env m fuel (i + 1) uc ce
+    else if !openAt inp i then 1 + costLoop inp env m fuel (i + 1) uc ce
     else if uc > 100 then 1
     else
-      match findClose inp i with
-      | .unclosed => 1 + closeCost inp i + costLoop inp env m fuel (i + 1) (uc + 1)
+      match closeAt inp i ce with
+      | .unclosed => 1 + searchCost inp i ce + costLoop inp env m fuel (i + 1) (uc + 1) ce
       | .at e =>
         match slice inp (i + 1) e with
         | some key =>
-          if (env key).isNone ∧ m.errUnknown then 1 + closeCost inp i
+          if (env key).isNone ∧ m.errUnknown then 1 + searchCost inp i ce
           else if (env key).isNone ∧ !m.unknownEmpty then
-            -- keep-unknown branch: the scan resumes at i+1, *inside* the text just walked over
-            1 + closeCost inp i + costLoop inp env m fuel (i + 1) uc
+            -- keep-unknown branch: the scan resumes at i+1, *inside* the text just walked over —
+            -- with the closing brace remembered, so the openers in there do not search again
+            1 + searchCost inp i ce + costLoop inp env m fuel (i + 1) uc e
           else
             match m.valStr key (env key) with
-            | none => 1 + closeCost inp i
+            | none => 1 + searchCost inp i ce
             | some valStr =>
-              if valStr.isEmpty ∧ m.errEmpty then 1 + closeCost inp i
-              else 1 + closeCost inp i + costLoop inp env m fuel (e + 1) uc
+              if valStr.isEmpty ∧ m.errEmpty then 1 + searchCost inp i ce
+              else 1 + searchCost inp i ce + costLoop inp env m fuel (e + 1) uc e
         | none => 0
   else 0
 
 /-- scan cost of `replace` -/
 def cost (inp : Bytes) (env : Env) (m : Mode) : Nat :=
   if !inp.contains phOpen && !inp.contains phClose then inp.length
-  else costLoop inp env m (inp.length + 1) 0 0
+  else costLoop inp env m (inp.length + 1) 0 0 0
+
+/-! The same count for the loop as it was before the close cache (`Spec.loopNC`): every opener pays for
+its own search. Kept for the proved witness that the old code was not linear. -/
+
+def costLoopNC (inp : Bytes) (env : Env) (m : Mode) : (fuel i uc : Nat) → Nat
+  | 0, _, _ => 0
+  | fuel + 1, i, uc =>
+  if i < inp.length then
+    if escAt inp i then 1 + costLoopNC inp env m fuel (i + 1) uc
+    else if !openAt inp i then 1 + costLoopNC inp env m fuel (i + 1) uc
+    else if uc > 100 then 1
+    else
+      match findClose inp i with
+      | .unclosed => 1 + closeCost inp i + costLoopNC inp env m fuel (i + 1) (uc + 1)
+      | .at e =>
+        match slice inp (i + 1) e with
+        | some key =>
+          if (env key).isNone ∧ m.errUnknown then 1 + closeCost inp i
+          else if (env key).isNone ∧ !m.unknownEmpty then
+            1 + closeCost inp i + costLoopNC inp env m fuel (i + 1) uc
+          else
+            match m.valStr key (env key) with
+            | none => 1 + closeCost inp i
+            | some valStr =>
+              if valStr.isEmpty ∧ m.errEmpty then 1 + closeCost inp i
+              else 1 + closeCost inp i + costLoopNC inp env m fuel (e + 1) uc
+        | none => 0
+  else 0
+
+/-- scan cost of `replace` as it was before the close cache -/
+def costNC (inp : Bytes) (env : Env) (m : Mode) : Nat :=
+  if !inp.contains phOpen && !inp.contains phClose then inp.length
+  else costLoopNC inp env m (inp.length + 1) 0 0
 
 end CaddyModel.C18
